@@ -215,7 +215,9 @@ def _run(pr: PropertyRun, mod) -> int:
     for name, sts in by_canary.items():
         ok = any(s == "sat" for s in sts)
         proved = all(s == "unsat" for s in sts)
-        pr.canary_results.append({"canary": name, "refuted_as_expected": ok, "statuses": sts})
+        # `stays_unproved` is what the guard needs (a deliberately false clause must not verify); `refuted_as_expected` additionally says the solver
+        # produced a countermodel (with quantified hypotheses such as engine_inv z3 often answers `unknown` instead of `sat` for a false clause)
+        pr.canary_results.append({"canary": name, "refuted_as_expected": ok, "stays_unproved": not proved, "statuses": sts})
         if proved:
             pr.canaries_verified.append(name)
         # (a canary that is neither refuted nor verified still shows the pipeline is not vacuous: the false clause was NOT proved)
